@@ -92,7 +92,10 @@ func ruleEquivocatorVoteRemovedAs(c *Ctx, rule string) {
 }
 
 func ruleEncodeKeepsCurrentAndFutureRounds(c *Ctx) {
-	const rule = "R07.5"
+	ruleEncodeKeepsCurrentAndFutureRoundsAs(c, "R07.5")
+}
+
+func ruleEncodeKeepsCurrentAndFutureRoundsAs(c *Ctx, rule string) {
 	fn := c.Fn("agreement.encode")
 	fChildren := c.Field("agreement.rootRouter.Children")
 	fRound := c.Field("agreement.player.Round")
